@@ -2,8 +2,10 @@ use crate::Check;
 
 pub mod c01;
 pub mod c02;
+pub mod c03;
 pub mod c04;
 pub mod c05;
+pub mod c06;
 pub mod c07;
 pub mod c08;
 pub mod c09;
@@ -38,6 +40,8 @@ pub fn get(id: &str) -> Option<Box<dyn Check>> {
         "C19" => Some(Box::new(c19::C19)),
         "C17" => Some(Box::new(c17::C17)),
         "C01" => Some(Box::new(c01::C01)),
+        "C03" => Some(Box::new(c03::C03)),
+        "C06" => Some(Box::new(c06::C06)),
         "C05" => Some(Box::new(c05::C05)),
         _ => None,
     }
